@@ -126,12 +126,17 @@ CLAIMED["C05"] = {
             "_raise_if_pid_reused returns only after checking the identity in that very call. children() (non-recursive) is proved for every pid->ppid snapshot (symbolic map "
             "with a ghost key sequence, loop invariant: the result is the fold 'listed pids whose recorded parent is this "
             "process, other than itself, still there and not a zombie when looked at, not older than the caller'). "
+            "children(recursive=True): the real graph walk is executed symbolically per parent-link graph over the caller "
+            "and three other pids (every assignment of parents: forests, self-loops, cycles, unlisted parents) with "
+            "unconstrained start times and vanished/zombie status of every child: it returns exactly the processes "
+            "reachable through live, not-older links, each once, never the caller, builds at most one handle per pid, "
+            "and ends on every path (SHAPE BOUND: four pids). "
             "children()/children(recursive=True) are also checked by a bounded enumeration of "
             "every parent-link graph over four PIDs (forests, self-loops, cycles, unlisted parents) x start-time "
             "orderings, with children vanishing right after the snapshot, against a reference closure; termination is "
             "watched by an alarm (labelled bounded).",
-    "note": "the recursive graph walk is not proved (symbolic defaultdict/set/stack manipulation is outside the VC generator); "
-            "parents() termination not claimed.",
+    "note": "the recursive graph walk is proved per graph up to four pids (shape bound; start times / vanishing symbolic), "
+            "not for arbitrary snapshot sizes; parents() termination not claimed.",
     "ref": "DESIGN.md section 5 (C05)",
     "category": "proof",
 }
